@@ -236,6 +236,13 @@ func init() {
 				mkSys := func(with bool) (*Sys, error) {
 					cfg := baseConfig(c.Strat, []*vh.Backend{be})
 					cfg.Plugins = c14Chain(c.Chain, c.L1, c.L2, with)
+					if (c.L1+c.L2+len(c.Chain))%2 == 0 {
+						// with the balancer's optional features on (thresholds out of reach): what they do after a response
+						// has been relayed must not show through a plugin that holds the header back
+						cfg.CircuitBreaker = config.CircuitBreakerConfig{Enabled: true, FailureThreshold: 1000000, SuccessThreshold: 1, IntervalSeconds: 3600, TimeoutSeconds: 60}
+						cfg.HealthChecks.Passive = config.PassiveHealthCheckConfig{Enabled: true, UnhealthyThreshold: 1000000, UnhealthyTimeout: 30}
+						cfg.RateLimit = config.RateLimitConfig{Enabled: true, MaxTokens: 1000000, RefillRate: 1}
+					}
 					return startSys(cfg, []*vh.Backend{be}, true)
 				}
 				s1, err := mkSys(false)
